@@ -7137,6 +7137,11 @@ pub(crate) fn eval(env: &mut Env, session: &Session) -> Result<Value, EvalError>
         if let Some((mut expr_state, outer_expr)) = env.current_frame_mut().exprs_to_eval.pop() {
             env.ticks += 1;
 
+            #[cfg(wilfred_garden_verif)]
+            if crate::verif_hooks::interrupt_at_tick(env.ticks) {
+                session.interrupted.store(true, Ordering::SeqCst);
+            }
+
             if session.interrupted.load(Ordering::SeqCst) {
                 session.interrupted.store(false, Ordering::SeqCst);
                 restore_stack_frame(env, (expr_state, outer_expr), &[]);
